@@ -468,3 +468,15 @@ Example C16_concurrent_example :
   | None => False
   end.
 Proof. vm_compute. auto. Qed.
+
+(* ================= every call of every history ================= *)
+Theorem C16_history_budget_and_reuse :
+  forall parse clean cf hist c,
+    Forall2 (fun rs out => exists c0,
+               (reg_sends (fst out) <= 3)%nat /\ (fetches (fst out) <= 1)%nat /\
+               outcome_ok parse cf (fst rs) (fst out) (snd out) /\
+               stops_after_failure (fst out) /\
+               Forall (cached_send_ok clean (cf_flavour cf) c0 (fst rs)) (fst out))
+            hist (fst (run_history clean parse cf c hist)).
+Proof. exact history_budget_and_reuse. Qed.
+Print Assumptions C16_history_budget_and_reuse.
